@@ -125,21 +125,47 @@ func randEvents(r *rand.Rand, n int, selfID int64, known map[int64]bool, tags ta
 	return evs
 }
 
-func randStart(r *rand.Rand, tags tagset) (hx.T, int64, map[int64]bool) {
+func lnode(n hx.T) hx.T { return hx.C("LNode", n) }
+
+func lnodes(ns ...hx.T) []any {
+	out := []any{}
+	for _, n := range ns {
+		out = append(out, lnode(n))
+	}
+	return out
+}
+
+func withState(n hx.T, s int64) hx.T {
+	return hx.C("Nd", n.Args[0], n.Args[1], s, n.Args[3], n.Args[4])
+}
+
+func randStart(r *rand.Rand, tags tagset) (hx.T, hx.T, map[int64]bool) {
 	selfID := int64(0)
 	if r.Intn(4) == 0 {
 		selfID = r.Int63n(nNodes)
 	}
-	self := nd(selfID, true, randState(r, tags), 10+selfID, randSvcs(r, selfID, tags)...)
+	addr := 10 + selfID
+	switch p := r.Intn(40); {
+	case p == 0:
+		tags["addr-nonhost"] = true
+		addr = -1
+	case p == 1:
+		tags["start-fails"] = true
+		addr = -2
+	}
+	self := nd(selfID, true, randState(r, tags), addr, randSvcs(r, selfID, tags)...)
 	known := map[int64]bool{}
-	var listing []hx.T
+	listing := []any{}
 	for n := r.Intn(4); n > 0; n-- {
 		id := r.Int63n(nNodes)
+		if r.Intn(3) == 0 {
+			id = selfID
+		}
 		rec := randNode(r, id, tags)
 		if id == selfID {
 			tags["listing-self"] = true // a stale record of the node itself
 		}
-		if r.Intn(12) == 0 {
+		if r.Intn(10) == 0 {
 			tags["listing-dead"] = true
 			rec.Args[1] = false
 		}
@@ -147,9 +173,13 @@ func randStart(r *rand.Rand, tags tagset) (hx.T, int64, map[int64]bool) {
 			tags["listing-dup"] = true
 		}
 		known[id] = true
-		listing = append(listing, rec)
+		listing = append(listing, lnode(rec))
+		if r.Intn(60) == 0 {
+			tags["start-fails"] = true
+			listing = append(listing, hx.Pick(r, []string{"LJunk", "LFail"}))
+		}
 	}
-	return hx.C("OStart", self, hx.Norm(listing)), selfID, known
+	return hx.C("OStart", self, listing), self, known
 }
 
 // splits: bit i of mask set = cut after event i
@@ -226,38 +256,144 @@ func randView(r *rand.Rand, tags tagset) []hx.T {
 
 // ---------------------------------------------------------------- driver
 
+// one random provider life: watch segments interleaved with the node's own state changes (each
+// followed by what etcd then delivers: DELETE self after the lease revoke, PUT self with the new
+// state), ends of the watch stream, queries of the package-level getters
+func randLife(r *rand.Rand, tags tagset, nonconf bool, long bool) []hx.T {
+	start, self, known := randStart(r, tags)
+	selfID := self.Int(0)
+	ops := []hx.T{start}
+	var pending []hx.T // events about the node itself that the next response starts with
+	for seg := 1 + r.Intn(3); seg > 0; seg-- {
+		n := 1 + r.Intn(8)
+		if long {
+			n = 8 + r.Intn(24)
+		}
+		evs := append(pending, randEvents(r, n, selfID, known, tags, nonconf)...)
+		pending = nil
+		ops = append(ops, randSplit(r, evs, tags)...)
+		switch r.Intn(7) {
+		case 0, 1:
+			st := randState(r, tags)
+			tags["self-state"] = true
+			self = withState(self, st)
+			ops = append(ops, hx.C("OSelfState", st))
+			if r.Intn(4) > 0 {
+				tags["self-state-echo"] = true
+				pending = []hx.T{del(selfID), put(selfID, self)}
+			}
+		case 2:
+			tags["rewatch-closed"] = true
+			ops = append(ops, hx.C("ORewatch", 0))
+		case 3:
+			tags["rewatch-error"] = true
+			ops = append(ops, hx.C("ORewatch", int64(1+r.Intn(2))))
+		case 4:
+			ops = append(ops, hx.C("OQuery"))
+		case 5:
+			tags["lease-lost"] = true
+			ops = append(ops, hx.C("OLeaseLost", int64(r.Intn(3))))
+			if r.Intn(2) == 0 { // what etcd delivers: expiry of the node's key, then its new registration
+				pending = []hx.T{del(selfID), put(selfID, self)}
+			}
+		}
+	}
+	if len(pending) > 0 {
+		ops = append(ops, batch(pending))
+	}
+	ops = append(ops, hx.C("OQuery"))
+	if r.Intn(8) == 0 {
+		tags["shutdown"] = true
+		ops = append(ops, hx.C("OShutdown"), batch([]hx.T{del(1)}), hx.C("OQuery"))
+	}
+	return ops
+}
+
 func generate(cfg *hx.Config, emit func(kind string, ops []hx.T, tags []string)) {
 	r := cfg.Rng
 	thorough := cfg.Tier == "thorough"
 
-	// 1. exhaustive: all lists x all batchings over a small alphabet, self = node 0
 	self := nd(0, true, 1, 10, svc(1, 1))
 	n1 := nd(1, true, 1, 11, svc(1, 2), svc(2, 5))
 	n1b := nd(1, true, 2, 21, svc(1, 2), bad(1))
 	n2 := nd(2, true, 1, 12, svc(2, 3), svc(3, 2))
 	selfb := nd(0, true, 3, 20, svc(2, 4))
-	alpha := []hx.T{put(1, n1), put(1, n1b), del(1), del(0), put(2, n2)}
+	stale := nd(0, true, 2, 30, svc(3, 6))
+	dead := func(n hx.T) hx.T { return hx.C("Nd", n.Args[0], false, n.Args[2], n.Args[3], n.Args[4]) }
+	alpha7 := []hx.T{put(1, n1), put(1, n1b), del(1), del(0), put(2, n2), put(0, selfb), del(2)}
+
+	// 1. exhaustive: all lists x all batchings over a small alphabet, self = node 0
 	if thorough {
-		alpha = append(alpha, put(0, selfb), del(2))
-		exhaustive(alpha, 4, hx.C("OStart", self, []any{}), emit)
-		exhaustive(alpha, 3, hx.C("OStart", self, []any{n1, n2}), emit)
+		exhaustive(alpha7, 4, hx.C("OStart", self, []any{}), emit)
+		exhaustive(alpha7, 3, hx.C("OStart", self, lnodes(n1, stale, n2)), emit)
 	} else {
-		exhaustive(alpha, 3, hx.C("OStart", self, []any{}), emit)
-		exhaustive(alpha[:4], 2, hx.C("OStart", self, []any{n1}), emit)
+		exhaustive(alpha7[:5], 3, hx.C("OStart", self, []any{}), emit)
+		exhaustive(alpha7[:4], 2, hx.C("OStart", self, lnodes(n1)), emit)
 	}
 
-	// 2. random histories
+	// 2. systematic initial listings: the node's own (stale) record first / last / alone, dead
+	// records, duplicate ids, each followed by every event of the alphabet and by the
+	// delete-then-register pair about the node itself
+	listings := [][]any{
+		{}, lnodes(n1), lnodes(stale), lnodes(n1, stale), lnodes(stale, n1), lnodes(stale, selfb),
+		lnodes(n1, n1b), lnodes(n1b, n1), lnodes(dead(n1)), lnodes(dead(stale)), lnodes(dead(n1), n1),
+		lnodes(n2, n1, stale, n1b, dead(n2)),
+	}
+	follow := [][]hx.T{{}}
+	for _, e := range alpha7 {
+		follow = append(follow, []hx.T{e})
+	}
+	follow = append(follow, []hx.T{del(0), put(0, selfb)}, []hx.T{put(0, stale), del(0)}, []hx.T{del(1), put(1, n1b)})
+	for _, l := range listings {
+		for _, f := range follow {
+			ops := []hx.T{hx.C("OStart", self, l)}
+			if len(f) > 0 {
+				ops = append(ops, batch(f))
+			}
+			emit("listing-systematic", append(ops, hx.C("OQuery")), []string{"listing-systematic"})
+			if thorough && len(f) == 2 {
+				emit("listing-systematic", []hx.T{hx.C("OStart", self, l), batch(f[:1]), batch(f[1:]), hx.C("OQuery")},
+					[]string{"listing-systematic"})
+			}
+		}
+	}
+
+	// 3. systematic self state changes: new state, then the events etcd delivers about the node
+	// itself (lease revoked -> DELETE, registered again -> PUT) in one response or in two, with a
+	// stale echo of the OLD state as well, before / after another node registers
+	for _, st := range []int64{0, 2, 3} {
+		cur := withState(self, st)
+		for variant := 0; variant < 6; variant++ {
+			ops := []hx.T{hx.C("OStart", self, lnodes(stale, n2))}
+			if variant%2 == 1 {
+				ops = append(ops, batch([]hx.T{put(1, n1)}))
+			}
+			ops = append(ops, hx.C("OSelfState", st))
+			switch variant / 2 {
+			case 0:
+				ops = append(ops, batch([]hx.T{del(0), put(0, cur)}))
+			case 1:
+				ops = append(ops, batch([]hx.T{del(0)}), batch([]hx.T{put(0, cur), del(2)}))
+			default: // the echo still carries the old state: the node's own record must win
+				ops = append(ops, batch([]hx.T{put(0, self), del(0), put(1, n1b)}))
+			}
+			ops = append(ops, hx.C("OLeaseLost", int64(variant%3)), hx.C("OSelfState", int64(1)), hx.C("ORewatch", int64(variant%3)), batch([]hx.T{put(0, self), del(2)}), hx.C("OQuery"))
+			emit("self-state-systematic", ops, []string{"self-state", "self-state-echo"})
+		}
+	}
+
+	// 4. random histories
 	maxAll := 4
 	if thorough {
 		maxAll = 6
 	}
 	for i := 0; i < cfg.N; i++ {
 		tags := tagset{}
-		start, selfID, known := randStart(r, tags)
 		nonconf := i%10 == 9
 		switch {
 		case i%5 == 0: // every batching of one random list
-			evs := randEvents(r, 2+r.Intn(maxAll-1), selfID, known, tags, false)
+			start, self, known := randStart(r, tags)
+			evs := randEvents(r, 2+r.Intn(maxAll-1), self.Int(0), known, tags, false)
 			if len(evs) > maxAll+1 {
 				evs = evs[:maxAll+1]
 			}
@@ -266,17 +402,10 @@ func generate(cfg *hx.Config, emit func(kind string, ops []hx.T, tags []string))
 				emit("all-batchings", append([]hx.T{start}, splitBy(evs, mask)...), tl)
 			}
 		default:
-			n := 1 + r.Intn(12)
-			if i%4 == 3 {
-				n = 10 + r.Intn(30)
-			}
-			evs := randEvents(r, n, selfID, known, tags, nonconf)
-			ops := append([]hx.T{start}, randSplit(r, evs, tags)...)
+			ops := randLife(r, tags, nonconf, i%4 == 3)
 			if r.Intn(8) == 0 { // a second provider life in the same case
 				tags["restart"] = true
-				start2, self2, known2 := randStart(r, tags)
-				evs2 := randEvents(r, 1+r.Intn(6), self2, known2, tags, false)
-				ops = append(append(ops, start2), randSplit(r, evs2, tags)...)
+				ops = append(ops, randLife(r, tags, false, false)...)
 			}
 			kind := "random"
 			if nonconf {
@@ -286,12 +415,39 @@ func generate(cfg *hx.Config, emit func(kind string, ops []hx.T, tags []string))
 		}
 	}
 
-	// 3. malformed stream: batches before any provider exists, only junk, only empties
-	emit("malformed", []hx.T{batch([]hx.T{put(1, n1)}), hx.C("OStart", self, []any{}), batch(nil), batch(nil)}, []string{"empty-batch"})
-	emit("malformed", []hx.T{hx.C("OStart", self, []any{n1}), batch([]hx.T{hx.C("EJunk", 1, 0), hx.C("EJunk", 1, 1)}),
+	// 5. malformed stream: batches before any provider exists, only junk, only empties, start
+	// failures (undecodable listing entry, address that is no host:port)
+	emit("malformed", []hx.T{batch([]hx.T{put(1, n1)}), hx.C("OSelfState", 2), hx.C("ORewatch", 0), hx.C("OShutdown"), hx.C("OQuery"),
+		hx.C("OStart", self, []any{}), batch(nil), batch(nil)}, []string{"empty-batch"})
+	emit("malformed", []hx.T{hx.C("OStart", self, lnodes(n1)), batch([]hx.T{hx.C("EJunk", 1, 0), hx.C("EJunk", 1, 1)}),
 		batch([]hx.T{hx.C("EJunk", 0, 0)})}, []string{"junk"})
+	emit("malformed", []hx.T{hx.C("OStart", self, []any{lnode(n1), "LJunk"}), batch([]hx.T{put(2, n2)}), hx.C("OQuery"),
+		hx.C("OStart", self, []any{"LFail"}), hx.C("OLeaseLost", 0), hx.C("OStart", nd(0, true, 1, -2), []any{}), hx.C("OStart", nd(0, true, 1, -1, svc(1, 1)), lnodes(n1)), batch([]hx.T{del(1)})},
+		[]string{"start-fails", "addr-nonhost"})
 
-	// 4. reader-atomicity measurement (not a proof): updater alternating two complete views
+	// 6. etcd.Node round trips and the self cluster (cluster disabled)
+	nDirect := 8
+	if thorough {
+		nDirect = 60
+	}
+	for i := 0; i < nDirect; i++ {
+		tags := tagset{}
+		rec := randNode(r, r.Int63n(nNodes), tags)
+		if r.Intn(4) == 0 {
+			rec.Args[1] = false
+		}
+		var svcs []any
+		for n := r.Intn(5); n > 0; n-- {
+			svcs = append(svcs, hx.Pair{A: 1 + r.Int63n(6), B: r.Int63n(4)})
+		}
+		addr := 10 + r.Int63n(4)
+		if r.Intn(4) == 0 {
+			addr = -1 - r.Int63n(3)
+		}
+		emit("direct", []hx.T{hx.C("ONode", rec), hx.C("OSelfCluster", r.Int63n(nNodes), addr, svcs), hx.C("OQuery")}, []string{"node-roundtrip", "self-cluster"})
+	}
+
+	// 7. reader-atomicity measurement (not a proof): updater alternating two complete views
 	nStress := 3
 	if thorough {
 		nStress = 12
